@@ -133,6 +133,8 @@ struct Opts {
     fuel: u64,
     stack_mb: usize,
     light: bool,
+    /// only lex, strict parse, both typechecking modes, eval_full and query
+    lean: bool,
 }
 
 /// Run one stage on its own big-stack thread under catch_unwind.  The closure returns the stage
@@ -481,7 +483,7 @@ fn run_ncl(bytes: Arc<Vec<u8>>, o: &Opts) -> Report {
         })
     };
 
-    {
+    if !o.lean {
         let src = src.clone();
         stage(&mut rep, o, "parse_tolerant", move |rep| {
             let alloc = AstAlloc::new();
@@ -512,7 +514,7 @@ fn run_ncl(bytes: Arc<Vec<u8>>, o: &Opts) -> Report {
         });
     }
 
-    {
+    if !o.lean {
         let src = src.clone();
         stage(&mut rep, o, "parse_other", move |rep| {
             let alloc = AstAlloc::new();
@@ -576,6 +578,7 @@ fn run_ncl(bytes: Arc<Vec<u8>>, o: &Opts) -> Report {
         return rep;
     }
 
+    if !o.lean {
     prog_stage(&mut rep, o, "pprint_ast", &bytes, InputFormat::Nickel, move |prog, _rep| {
         let mut out = Vec::new();
         prog.pprint_ast(&mut out, false)?;
@@ -584,6 +587,7 @@ fn run_ncl(bytes: Arc<Vec<u8>>, o: &Opts) -> Report {
         prog.pprint_ast(&mut out, true)?;
         Ok(format!("ok:{a}:{}", out.len()))
     });
+    }
     prog_stage(&mut rep, o, "typecheck_strict", &bytes, InputFormat::Nickel, move |prog, _rep| {
         prog.typecheck(TypecheckMode::Enforce)?;
         Ok("ok".into())
@@ -594,6 +598,25 @@ fn run_ncl(bytes: Arc<Vec<u8>>, o: &Opts) -> Report {
     });
     // (the stages that may legitimately run out of budget come after the ones that may not)
     // the Program-level path (parse error rendering with the stdlib files around, or evaluation)
+    if o.lean {
+        // the cross-product programs: both typechecking modes above, full evaluation with
+        // pretty-printing of the result, and query
+        prog_stage(&mut rep, o, "eval_full", &bytes, InputFormat::Nickel, move |prog, _rep| {
+            nickel_lang_core::verif_hooks::set_fuel(fuel);
+            let v = prog.eval_full()?;
+            nickel_lang_core::verif_hooks::set_fuel(u64::MAX);
+            let s = format!("{v}");
+            Ok(format!("ok:pretty={}", s.len()))
+        });
+        prog_stage(&mut rep, o, "query", &bytes, InputFormat::Nickel, move |prog, _rep| {
+            nickel_lang_core::verif_hooks::set_fuel(fuel);
+            let f = prog.query()?;
+            nickel_lang_core::verif_hooks::set_fuel(u64::MAX);
+            let shown = f.value.as_ref().map(|v| v.pretty_print_cap(80).len()).unwrap_or(0);
+            Ok(format!("ok:value={shown}"))
+        });
+        return rep;
+    }
     let evaled = prog_stage(&mut rep, o, "eval", &bytes, InputFormat::Nickel, move |prog, _rep| {
         nickel_lang_core::verif_hooks::set_fuel(fuel);
         let v = prog.eval()?;
@@ -737,7 +760,7 @@ fn parse_case(line: &str) -> Option<(InputFormat, Opts, Vec<u8>)> {
         "text" => InputFormat::Text,
         _ => return None,
     };
-    let mut o = Opts { fuel: 400_000, stack_mb: 256, light: false };
+    let mut o = Opts { fuel: 400_000, stack_mb: 256, light: false, lean: false };
     for f in it {
         if let Some(n) = f.strip_prefix("fuel=") {
             o.fuel = n.parse().ok()?;
@@ -745,6 +768,8 @@ fn parse_case(line: &str) -> Option<(InputFormat, Opts, Vec<u8>)> {
             o.stack_mb = n.parse().ok()?;
         } else if f == "light" {
             o.light = true;
+        } else if f == "lean" {
+            o.lean = true;
         }
     }
     Some((fmt, o, unhex(hex)))
